@@ -13,7 +13,7 @@ CLAIMS = {
                 'proved lower bound strlen >= j derived from the switch selector; zero- vs sign-extension of each byte from the '
                 'type-checked cast chain; bytes accumulated per length.  The tag-padding clause is decided as a taint/sibling rule: '
                 'both implementations of the space->zero normalisation implement the same four cases, and every tag-taking entry '
-                'normalises before any other use.  Holds for all strings/tags because no run-time value enters the argument.',
+                'normalises before any other use.  Holds for all strings/tags because no run-time value enters the argument.  A string handed to a fixed-width reader (be::peek/read, memcpy of constant length) is decided against the proved strlen bound; a buffer handed to a C string function is a violation (tags may contain zero bytes); normalisers written as loops over constants are unrolled by a bounded abstract execution.',
         'note': 'Trusted: clang 14 parser/CFG/constant folder, tools/grfacts, rules/c20.py, rules/tagnorm.py; the rule knows the '
                 'switch-on-length form and constant-offset stores, any other shape is exit 2 (analysis broken), never a pass.',
         'technique': 'CFG path enumeration + constant-offset pointer tracking + length lattice on switch edges + cast-chain typing (custom clang plugin facts)',
@@ -23,7 +23,7 @@ CLAIMS = {
                 'template instantiations, each analysed): the decode of a character is followed by a NUL test whose zero edge '
                 'leaves the loop and which dominates the iterator advance and appendSlot; exactly one decode per iteration; the '
                 'consumed-character counter is returned and stored into both segment counts on every path.  The number of code '
-                'units a single decode may look ahead is C11\'s clause (continuation-guarded look-ahead), not this one.',
+                'units a single decode may look ahead is C11\'s clause (continuation-guarded look-ahead), not this one.  TEXTFLOW: the caller\'s text pointer is only handed on (gr_make_seg -> makeAndInitialize -> Segment::read_text -> the decoder\'s iterator); nothing else reads the text.',
         'note': 'Trusted: clang 14 CFG, tools/grfacts, rules/c12.py.  Unknown loop shapes are exit 2.  Byte-level look-ahead inside '
                 'one UTF-8 decode is covered by C11 CONTGUARD.',
         'technique': 'CFG dominance / reachability path rule over template instantiations + def-use of the consumed count',
@@ -51,7 +51,7 @@ CLAIMS = {
                 'null-tested before use; user-attribute indexing is guarded; slots are allocated only at the tabled, budgeted sites '
                 '(decMax, growth refusal, post-pass size test, extendLength accounting); limit constants equal the extents they index; '
                 'recursion depth cut-offs dominate the recursive calls; the per-pass loop counter is consulted on the advance path and '
-                'forced >= 1.  NOT decided: float-derived indexing in the colliders, the work bound as a number, leak-freedom.',
+                'forced >= 1.  NOT decided: float-derived indexing in the colliders, the work bound as a number, leak-freedom.  Also decided: the number of SlotMap::pushSlot calls on any path through Pass::runFSM, computed from its constant-initialised counter by a bounded abstract execution, fits the slot map; the attach.to slot-map index in Slot::setAttr is unsigned (or bounded below) and below map.size().',
         'note': 'Trusted: clang 14 CFG/constant folder, tools/grfacts, rules/vmsym.py, rules/dom.py, and the hand-confirmed tables in '
                 'rules/c02.py (allowed newSlot/extendLength callers with reasons).  Allocation failure is outside the quantifier.',
         'technique': 'CFG dominance (edge-cut) + path rules + who-may-call over resolved callees + symbolic stack-offset analysis of opcode handlers',
@@ -65,7 +65,7 @@ CLAIMS = {
                 'owned memory and on globals must be empty; writes through API parameters must be to documented out-parameters.  Side '
                 'rules: no mutable global or guarded static reachable, SHARED classes hold no pointer to per-call objects, features are '
                 'copied by value, const-cast inventory.  Because a history can influence a later call only through such memory, this '
-                'covers all API interleavings.  Equality of two result dumps is NOT decided (runtime values).',
+                'covers all API interleavings.  Equality of two result dumps is NOT decided (runtime values).  LAZYFILL: each lazily filled cell receives only its loader\'s result, and the filling call returns the cell it filled (not a differently converted or substitute value).',
         'note': 'Trusted: clang 14 code generator (-O0 + sroa/mem2reg) and typed pointers, tools/grir, rules/eff.py ownership lattice, the '
                 'SHARED / PER-CALL class partition (total: an unclassified struct is exit 2), the three-row lazy-cache table with reasons, '
                 'the out-parameter table.  The application must not modify the table bytes it lent to the face.',
@@ -79,7 +79,7 @@ CLAIMS = {
                 'the lookup falsifies its own guard whether or not a table exists, every Font::advance call is dominated by isHinted() '
                 'and m_hinted requires a callback -- and that the table / advance callbacks are unreachable from shaping and called only '
                 'from their tabled sites.  With an empty shared write set no schedule can race.  That each thread obtains the '
-                'single-threaded result is not separately decided (it follows from C08\'s clause).',
+                'single-threaded result is not separately decided (it follows from C08\'s clause).  The options word the face is built with comes from the faceOptions parameter of every face-construction entry point (and from no other parameter), through any forwarding helpers.',
         'note': 'Trusted: as C08, plus rules/c09.py path rules and rules/dom.py.  Assumes callers do not share a segment or feature-value '
                 'object between threads while mutating it, and that logging is off (documented exclusions).',
         'technique': 'interprocedural write-effect analysis over LLVM IR + CFG must-pass / dominance rules disabling each lazy cache + who-may-call on callbacks',
@@ -94,7 +94,7 @@ CLAIMS = {
                 'table-derived pointer is stored into memory that outlives the table; (5) the destructor of every class frees each of the '
                 '45 allocator-assigned fields on every path and every function-local allocation reaches a release or hand-over on every '
                 'non-allocation-failure path (the failed gr_make_face exits); (6) the C09 rules that no table is asked for after '
-                'gr_face_preloadAll.  Allocator balance as a number is NOT decided.',
+                'gr_face_preloadAll.  Allocator balance as a number is NOT decided.  decompress() releases the borrowed table before it sets the ownership flag.',
         'note': 'Trusted: clang 14 (front end, code generator), tools/grfacts, tools/grir, rules/c16.py, rules/noescape.py, rules/dom.py; tabled '
                 'exceptions with reasons (placement-new Code objects, GlyphCache box block).  Allocation failure is outside the quantifier.',
         'technique': 'compile-fail witness + CFG typestate/must-pass rules + who-may-call + interprocedural pointer-taint (escape) analysis on LLVM IR',
@@ -106,7 +106,7 @@ CLAIMS = {
                 'instantiated only with iteration/lookup functions of one format, the (plane, format) routing is identical -- DirectCmap '
                 'splits on usv > 0xFFFF, CachedCmap\'s two fill passes are called with windows (0xFFFF, 0x10FFFF) for format 12 and '
                 '(0, 0xFFFF) for format 4 and store only inside the window -- the pseudo-glyph fallback is consulted exactly when the '
-                'cmap returned 0 at both users, and the cached block table is indexed only under the bounds matching its allocation.',
+                'cmap returned 0 at both users, and the cached block table is indexed only under the bounds matching its allocation.  NARROWREAD (shared with C01): no table field, e.g. a pseudo-glyph code point, is truncated when stored.',
         'note': 'Trusted: clang 14 CFG, tools/grfacts, rules/c13.py, rules/dom.py.  The binary-search / group-scan arithmetic inside '
                 'TtfUtil::CmapSubtable4Lookup/12Lookup/NextCodepoint is value-level and out of reach (a seeded off-by-one there is a recorded miss).',
         'technique': 'sibling cross-check of two implementations (call arguments, guards, selectors) over AST/CFG facts + dominance rules',
@@ -119,7 +119,7 @@ CLAIMS = {
                 'the link fields, newSlot returns slots with null links, slot-count accounting (extendLength exactly once per '
                 'INSERT/DELETE), indices assigned on one traversal between the substitution and positioning runs and by nobody else, the '
                 'loader rejects INSERT/DELETE once indices exist, the pseudo real-glyph clamp on every path.  NOT decided: finiteness of '
-                'positions, glyph-id validity beyond the clamp (font data), reverseSlots beyond two loop iterations per loop.',
+                'positions, glyph-id validity beyond the clamp (font data), reverseSlots beyond two loop iterations per loop.  reverseSlots is executed symbolically to a depth that covers its diacritic-run branch, with two further rules: a redirected link must not leave the old neighbour pointing back (R8) and every relinked slot stays on the forward chain from the head (R9).',
         'note': 'Trusted: clang 14 CFG, tools/grfacts, rules/linksym.py (symbolic link heap, pre-state axioms), rules/dom.py, the tabled mutator '
                 'set with reasons.  Paths are complete up to two visits per block; deeper iterations are not explored.',
         'technique': 'symbolic shape analysis (abstract link-heap execution per CFG path) + who-may-write + dominance/ordering rules',
@@ -132,7 +132,7 @@ CLAIMS = {
                 'still the true tail, and the symbolic composition addLineEnd;delLineEnd restores every link of every pre-existing slot (both '
                 'shapes) and frees the sentinel; gr_slot_linebreak_before nulls exactly the three links across the cut; list mutators are '
                 'rejected in justification passes.  NOT decided: finiteness of widths/origins, and that reverseSlots undoes itself for every '
-                'arrangement of diacritics (value-dependent relinking).',
+                'arrangement of diacritics (value-dependent relinking).  Also: reverseSlots never uses m_last as the end of the list (justify calls it, through positionSlots, with m_last narrowed to the line) and toggles the reversed flag on every path; gr_slot_linebreak_before cuts exactly the links of p->prev() and p.',
         'note': 'Trusted: clang 14 CFG, tools/grfacts, rules/c19.py, rules/linksym.py, rules/dom.py.  The allocation-failure exit `return -1.0` '
                 'is exempt (DESIGN.md section 7, F7).',
         'technique': 'CFG must-pass / pairing rules with correlated-condition edge cuts + symbolic composition of two functions on an abstract link heap',
@@ -146,7 +146,7 @@ CLAIMS = {
                 'absent, refuse self, unlink exactly the removed node); freeSlot leaves its parent and orphans only children that name it as '
                 'parent; PUT_COPY refuses attached slots and rebuilds the links; TEMP_COPY marks its copy; finalisation rebuilds the base '
                 'chain over bases only.  The induction itself (that these steps compose to a forest for every rule sequence) is argued in '
-                'DESIGN.md and not mechanised.',
+                'DESIGN.md and not mechanised.  TEMP_COPY marks its copy after the whole-slot copy (the mark would otherwise be overwritten).',
         'note': 'Trusted: clang 14 CFG, tools/grfacts, rules/c04.py, rules/linksym.py, rules/dom.py, the tabled writer sets.',
         'technique': 'dominance-fact rules + symbolic execution of list primitives over an abstract heap + who-may-write tables',
     },
@@ -158,7 +158,7 @@ CLAIMS = {
                 'second unit only after a high surrogate; on every path of every get() the step length handed to the iterator satisfies '
                 '1 <= |l| <= 1 + the number of further units that passed their test (constant propagation over the CFG), so no unvetted '
                 'unit -- in particular a terminating NUL -- is stepped over; a constant inequality over the lead-byte tables shows leads above '
-                'F4 are rejected through the limit test; the iterator advances by abs(l).',
+                'F4 are rejected through the limit test; the iterator advances by abs(l).  Every decode that can run with a buffer end lies, on every path, after a successful first.validate(last) and after a first != last test since the iterator last moved.',
         'note': 'Trusted: clang 14 CFG and constant folder, tools/grfacts, rules/c11.py, rules/dom.py.',
         'technique': 'CFG dominance / must-pass rules + constant propagation of the step length per path + constant-table inequality',
     },
@@ -181,7 +181,7 @@ CLAIMS = {
                 'is decremented after every copy before the next guard, the sequence reader tests the source cursor before every header byte '
                 'and requires MINCODA, the format constants are coherent; the wrapper tests the header size first, allocates exactly the '
                 'announced 27-bit size, compares the decoded length and the version word before installing the buffer, never installs a '
-                'failed decode, and adds no size rejection stronger than the decoder\'s own out_size > in_size contract.',
+                'failed decode, and adds no size rejection stronger than the decoder\'s own out_size > in_size contract.  Also: overrun_copy\'s word loop stops as soon as the source cursor reaches s + n (so it writes align(n) bytes, what COPYGUARD bounds); every fixed-size write into the freshly allocated output buffer is dominated by the announced size being at least that large.',
         'note': 'Trusted: clang 14 CFG, tools/grfacts, rules/c14.py, rules/dom.py.  Buffer ownership / release is C16 TABLETS.',
         'technique': 'dominance-with-strength rules over CFG facts (guards of every copy and read) + path rule on the output budget',
     },
@@ -192,7 +192,7 @@ CLAIMS = {
                 'the passes, the VM or the colliders has a Font parameter; (2) Font::scale() is read only by the five tabled functions; '
                 '(3) a flow-sensitive dimension analysis (design units vs pixels, the scale converts) of the float arithmetic of those five '
                 'functions on every font != NULL path: no sum, difference, comparison or store mixes the two units, nothing is scaled twice '
-                'or divided by the scale in the wrong direction -- the structural condition for linear scaling.',
+                'or divided by the scale in the wrong direction -- the structural condition for linear scaling.  gr_slot_advance_X/Y return a pixel value on every path on which a font is present.',
         'note': 'Trusted: clang 14 CFG, tools/grfacts, rules/c15.py, rules/units.py (unit tables keyed by resolved fields / getters, unknown '
                 'units are compatible with everything so only definite mixes are reported; at most 4000 paths per function).',
         'technique': 'argument-provenance rule + who-may-call + flow-sensitive dimension (unit) analysis over CFG paths',
@@ -216,7 +216,7 @@ CLAIMS = {
                 'glyphs through Loader::read_glyph / read_box and are the only writers of the cache cells; cells of the lazily filled cache '
                 'are read only by the loader and the tabled accessors that run on already-loaded glyphs (a predicate evaluated before the load '
                 'must not look at them); the file face is distinguished from a callback face only for ownership; and the shared C13 rules '
-                'that the direct and the cached cmap select sub-tables and route planes identically.',
+                'that the direct and the cached cmap select sub-tables and route planes identically.  OPTFLOW also decides which parameter of each face-construction entry point reaches the options word (exactly faceOptions).',
         'note': 'Trusted: clang 14 CFG, tools/grfacts, rules/c10.py, rules/c13.py.  Value-level lookup arithmetic inside TtfUtil is out of reach.',
         'technique': 'parameter taint (use classification) + sibling / who-may-call / who-may-read tables over resolved declarations',
     },
@@ -228,7 +228,7 @@ CLAIMS = {
                 'cross-state merge use it in both directions and drop duplicates; findNDoRule runs the action of the first candidate whose '
                 'constraint passed; none of the 45 opcode handlers bound for constraint code calls a stream mutator and the loader rejects '
                 'non-immutable constraints (so a rule that does not fire leaves the glyph unchanged); the pass index only moves forward apart '
-                'from the tabled bidi re-entry; freed slots have their whole user-attribute block wiped before reuse.',
+                'from the tabled bidi re-entry; freed slots have their whole user-attribute block wiped before reuse.  Also: the qsort comparator is evaluated over its three order types; every block copy / wipe of a slot\'s user attributes covers count * element size; the reversed-stream flag is toggled on every path through reverseSlots.',
         'note': 'Trusted: clang 14 CFG, tools/grfacts, rules/c06.py, rules/vm.py.  Everything about which rule matches where is out of reach of this family.',
         'technique': 'abstract evaluation over order types (comparison-only function) + structural / call-set purity rules',
     },
@@ -240,7 +240,7 @@ CLAIMS = {
                 'fact the parser used to rely on; the per-opcode operand validations of the bytecode loader (68, the class-id / user-attribute / '
                 'slot-reference ones being load-bearing for run-time sinks); no failure result is dropped (121 Error::test and load-status call '
                 'sites); the decoder recursion is cut by the nested-context rejection and Code::failure invalidates the code; constant coherence '
-                '(NUMCONTEXTS, attrid extent, gralloc overflow test); and the shared ownership / borrow rules for the failed-load exits (C16).',
+                '(NUMCONTEXTS, attrid extent, gralloc overflow test); and the shared ownership / borrow rules for the failed-load exits (C16).  Also decided: every branch on which an Error::test fired is a tabled rejection whatever the function then returns; no big-endian table field is stored into a narrower integer (NARROWREAD census); Face::Table::decompress releases the borrowed table while the ownership flag still describes it.',
         'note': 'Trusted: clang 14 CFG, tools/grfacts, rules/validators.py, rules/opchecks.py, rules/c01.py, rules/dom.py, and the two frozen tables, '
                 'which are regenerated only after reading the diff.  A renamed operand is exit 2 (re-confirm), never a pass.  Parser loop termination '
                 'and arithmetic overflow in size expressions are not decided.',
